@@ -959,6 +959,12 @@ def evaluate(ctx, cases):
                 if iv2 != ma["direct"]:
                     ctx.disagree("exact_mode_actions", {"case": inp, "expansion": 0}, iv2, ma["direct"])
                 noex = (hyps.get((ci, 0)) or {}).get("noExactLine")
+                ctx.hist("hyp_blocksOK=%s" % ma["blocksOK"])
+                ctx.hist("hyp_inert2=%s" % ma["inert2"])
+                if ma["blocksOK"] and c["opts"]["addExactBlock"]:
+                    ctx.hist("exact_actions_blocks_theorem_instance")
+                    if ma["composed2"] != ma["direct"]:
+                        raise common.InfraError("C17_exact_actions_blocks contradicted by the driver: %r vs %r" % (ma["composed2"], ma["direct"]))
                 if ma["itemOK"] and noex and c["opts"]["addExactBlock"]:
                     ctx.hist("exact_actions_theorem_instance")
                     if ma["acts"] != ma["direct"]:
